@@ -181,6 +181,10 @@ func Yield() {}
 // PoolNondet makes sync.Pool.Get return any pooled object or a new one (engine only).
 func PoolNondet(on bool) {}
 
+// PoolNondetFirst makes the next k sync.Pool.Get calls nondeterministic; later ones reuse last-in-first-out (engine only).
+// width > 0 bounds the alternatives of each such Get to that many: the newest pooled objects, the oldest one, a new one.
+func PoolNondetFirst(k, width int) {}
+
 // PoolInterfere makes f run right after the k-th sync.Pool.Put from now on (engine only): a whole operation
 // of another goroutine scheduled at the point where a pooled object has just been handed back.
 func PoolInterfere(k int, f func()) {}
